@@ -67,6 +67,7 @@ type loopInfo struct {
 	latch  []*ssa.BasicBlock
 	ord    int
 	measure string
+	framed  []string
 }
 
 type Env struct {
@@ -104,6 +105,7 @@ type enc struct {
 	params   map[string]Val
 	lets     map[string]Val
 	dbg      map[string][]ssa.Value // source name -> values (DebugRef)
+	dbgObj   map[ssa.Value]map[string]types.Object // value -> name -> declared object (for scope checks)
 	callOrd  map[string]int
 	safeOrd  map[string]int
 	errs     []string
@@ -129,6 +131,9 @@ type enc struct {
 	defs       map[string]string
 	guardOf    map[ssa.Value]guardInfo
 	coverOrd   int
+	frameAllowed map[string]bool
+	frameLocs  map[string][][]string
+	curPos     token.Pos
 	covers     []*Obligation
 }
 
@@ -196,6 +201,21 @@ func (e *enc) assumeHere(t string) { e.assume(implies(e.curReach, t)) }
 // define introduces a named constant equal to term (keeps terms small).
 func (e *enc) define(prefix string, s Sort, term string) string {
 	if len(term) < 40 && !strings.Contains(term, "(ite") {
+		return term
+	}
+	n := e.freshConst(prefix, s)
+	e.assume(eq(n, term))
+	if e.defs == nil {
+		e.defs = map[string]string{}
+	}
+	e.defs[n] = term
+	return n
+}
+
+// atom names a non-atomic term (used for slice indices so that quantifier patterns of the form
+// (select row (+ off j)) match the ground access term instead of an arithmetic normal form of it).
+func (e *enc) atom(prefix string, s Sort, term string) string {
+	if !strings.ContainsAny(term, "( ") {
 		return term
 	}
 	n := e.freshConst(prefix, s)
@@ -468,7 +488,39 @@ func (e *enc) addrOf(v Val, pointee types.Type) *Addr {
 // ---------------------------------------------------------------------------
 // obligations
 
+// splitConj flattens the top-level conjunction of an SMT term.
+func splitConj(t string) []string {
+	t = strings.TrimSpace(t)
+	if !strings.HasPrefix(t, "(and ") || !balanced(t[5:len(t)-1]) {
+		return []string{t}
+	}
+	var out []string
+	rest := strings.TrimSpace(t[5 : len(t)-1])
+	for len(rest) > 0 {
+		k := skipSexp(rest)
+		out = append(out, splitConj(rest[:k])...)
+		rest = strings.TrimSpace(rest[k:])
+	}
+	return out
+}
+
+// oblige records a proof obligation; a conjunction is split into one obligation per conjunct
+// (smaller queries; the failing conjunct is named in the report).
 func (e *enc) oblige(kind, label string, props []string, src, goal string, pos token.Pos) *Obligation {
+	switch kind {
+	case "requires", "ensures", "proves", "invariant-init", "invariant-preserve", "assert":
+		if parts := splitConj(goal); len(parts) > 1 {
+			var last *Obligation
+			for i, p := range parts {
+				last = e.oblige1(kind, fmt.Sprintf("%s .%d", label, i+1), props, src, p, pos)
+			}
+			return last
+		}
+	}
+	return e.oblige1(kind, label, props, src, goal, pos)
+}
+
+func (e *enc) oblige1(kind, label string, props []string, src, goal string, pos token.Pos) *Obligation {
 	if goal == "true" {
 		// still recorded so that counts are stable, but trivially discharged
 	}
